@@ -61,8 +61,19 @@ type Write struct {
 	Via  string          // "store", "append", "copy", "mapupdate", "call <callee>"
 }
 
+// Escape records a reference to package-level storage leaving it: stored into memory that is not package-level
+// (an object's field, a caller's slice) or returned to the caller. Whoever later writes through that memory writes
+// the shared package-level storage.
+type Escape struct {
+	Global string
+	Fn     *ssa.Function
+	Ins    ssa.Instruction
+	Via    string // "store" or "return"
+}
+
 // Summary is the effect summary of one function.
 type Summary struct {
+	Escapes map[string]Escape
 	Fn      *ssa.Function
 	Writes  map[string]Write // keyed by root+site
 	Returns rootSet          // roots of pointer-like results
@@ -350,6 +361,31 @@ func (st *funcState) write(rs rootSet, ins ssa.Instruction, via string) bool {
 	return ch
 }
 
+// escape records global-rooted references stored into non-global memory or returned.
+func (st *funcState) escape(val, into rootSet, ins ssa.Instruction, via string) {
+	if st.sum.Escapes == nil {
+		st.sum.Escapes = map[string]Escape{}
+	}
+	for r := range val {
+		if r.Kind != "global" {
+			continue
+		}
+		if via == "store" {
+			nonGlobal := false
+			for t := range into {
+				if t.Kind != "global" {
+					nonGlobal = true
+				}
+			}
+			if !nonGlobal {
+				continue
+			}
+		}
+		k := fmt.Sprintf("%s@%s#%d", r.Name, st.fn.String(), ordinal(ins))
+		st.sum.Escapes[k] = Escape{Global: r.Name, Fn: st.fn, Ins: ins, Via: via}
+	}
+}
+
 func ordinal(ins ssa.Instruction) int {
 	b := ins.Block()
 	for i, x := range b.Instrs {
@@ -470,9 +506,11 @@ func (st *funcState) visit(ins ssa.Instruction) bool {
 			ch = true
 		}
 		if pointerLike(x.Val.Type()) {
-			if st.hold(rs, st.rootsOf(x.Val)) {
+			vr := st.rootsOf(x.Val)
+			if st.hold(rs, vr) {
 				ch = true
 			}
+			st.escape(vr, rs, x, "store")
 		}
 	case *ssa.MapUpdate:
 		rs := st.rootsOf(x.Map)
@@ -488,6 +526,7 @@ func (st *funcState) visit(ins ssa.Instruction) bool {
 				if st.sum.Returns.add(st.rootsOf(r)) {
 					ch = true
 				}
+				st.escape(st.rootsOf(r), nil, x, "return")
 			}
 		}
 	case *ssa.Call:
@@ -686,6 +725,24 @@ func (a *Analysis) WritesOf(fn *ssa.Function) []Write {
 	var out []Write
 	for _, k := range ks {
 		out = append(out, s.Writes[k])
+	}
+	return out
+}
+
+// EscapesOf lists the escapes recorded in fn, sorted by key.
+func (a *Analysis) EscapesOf(fn *ssa.Function) []Escape {
+	sum := a.Sums[fn]
+	if sum == nil {
+		return nil
+	}
+	var ks []string
+	for k := range sum.Escapes {
+		ks = append(ks, k)
+	}
+	sort.Strings(ks)
+	var out []Escape
+	for _, k := range ks {
+		out = append(out, sum.Escapes[k])
 	}
 	return out
 }
